@@ -47,11 +47,10 @@ class Error(Tags):
             **kwargs: If kwargs contains the keyword `accepted` add the 'accepted' tag to a tag list
                 which will be forwarded to the Tags constructor.
         """
-        tags = kwargs.get('tags', [])
         accepted = kwargs.pop('accepted', False)
         if accepted:
-            tags.append('accepted')
-            kwargs['tags'] = tags
+            # do not mutate the caller's list (it may be shared between state definitions)
+            kwargs['tags'] = list(kwargs.get('tags', [])) + ['accepted']
         super(Error, self).__init__(*args, **kwargs)
 
     def enter(self, event_data):
